@@ -3,12 +3,12 @@
 import json, os, sys
 ROOT = os.path.normpath(os.path.join(os.path.dirname(os.path.abspath(__file__)), ".."))
 sys.path.insert(0, os.path.dirname(os.path.abspath(__file__)))
-from properties import PROPS, MANIFEST_TEXT
+from properties import PROPS, MANIFEST_TEXT, CLAIMED
 ids = [json.loads(l)["id"] for l in open(os.path.join(ROOT, "properties.jsonl")) if l.strip()]
 checks = []
 na = []
 for pid in ids:
-    if pid in PROPS and pid in MANIFEST_TEXT:
+    if pid in CLAIMED and pid in PROPS and pid in MANIFEST_TEXT:
         t = MANIFEST_TEXT[pid]
         checks.append({
             "property_id": pid,
